@@ -1,8 +1,9 @@
-import Rcgen.Theorems.C01
+import Rcgen.Proofs.CsrDecode
 /-
   C07 — a CSR says exactly what its parameters say, or is refused.
-  This file: the refusal decision logic and the shape of the request; the typed decode
-  theorem is in Theorems/C02 (shared extension lemmas).
+  This file: the refusal decision logic, the shape of the request, and
+  `csr_decodes_to_request`: the full typed decode (assembled in Proofs/CsrDecode.lean on the
+  extension lemmas shared with C02).
 -/
 namespace Rcgen.Theorems.C07
 open Rcgen Rcgen.Model
@@ -85,6 +86,91 @@ theorem extension_request_iff (p : CertParams) :
 theorem attribute_values_verbatim (a : Attribute) :
     encode (attrNode a) = encode (.cons 0 16 [.oid a.oid, .raw a.values]) ∧
     encode (Asn1.raw a.values) = a.values := ⟨rfl, rfl⟩
+
+/-- "each caller-supplied attribute value is the DER encoding of a SET": the witness `vals`
+    gives, for each attribute, a tree that encodes to the supplied bytes -/
+abbrev ValuesAreDer := Proofs.CsrDecode.ValuesAreDer
+
+/-- **a CSR says exactly what its parameters say.**  For every parameter set that is not
+    refused, every subject key and every list of caller attributes whose values are DER SETs:
+    strict DER decoding of the certificationRequestInfo followed by the RFC 2986 readers yields
+    version 0, the subject name as the enumeration of the name, the RFC SubjectPublicKeyInfo,
+    every caller attribute with its value bytes verbatim (as many times as supplied), and —
+    exactly when a key usage, SAN, EKU or custom extension is requested — exactly one further
+    attribute, the extension request, whose extensions are exactly the requested ones; otherwise
+    no further attribute.  The attribute SET OF is written sorted, so the statement is up to
+    permutation, which the clause list counts occurrence by occurrence.  Any number of
+    attributes, in any order, with repetitions. -/
+theorem csr_decodes_to_request (i : Spec.CsrInputs) (vals : Attribute → Asn1)
+    (hv : ValuesAreDer i.attrs vals)
+    (hnp : csrPanics i.p i.attrs = false)
+    (hc : ∀ e ∈ i.p.customExts, e.oid ∉ Proofs.X509.knownOids)
+    (hsize : (encode (csrInfo i.p i.subject i.attrs)).length < 256 ^ 126) :
+    Spec.c07Clauses i (encode (csrInfo i.p i.subject i.attrs)) = [] :=
+  Proofs.CsrDecode.c07_clauses_hold i vals hv hnp hc hsize
+
+/-- the typed record itself: the decoded attributes are the sorted attribute nodes, read -/
+theorem csr_decodes_to_record (i : Spec.CsrInputs) (vals : Attribute → Asn1)
+    (hv : ValuesAreDer i.attrs vals)
+    (hnp : csrPanics i.p i.attrs = false)
+    (hsize : (encode (csrInfo i.p i.subject i.attrs)).length < 256 ^ 126) :
+    Spec.decodeCsrInfo (encode (csrInfo i.p i.subject i.attrs)) = some (Proofs.CsrDecode.modelCsr i) :=
+  Proofs.CsrDecode.csr_decodes i vals hv hnp hsize
+
+/-- and they are a permutation of (the extension request, if any) followed by the caller's -/
+theorem csr_attributes_are_a_permutation (i : Spec.CsrInputs)
+    (hoids : ∀ a ∈ i.attrs, oidOk a.oid = true) :
+    (Proofs.CsrDecode.modelCsr i).attrs.Perm
+      (Proofs.CsrDecode.extReqSem i ++ Proofs.CsrDecode.callerAttrs i) :=
+  Proofs.CsrDecode.attrs_perm i hoids
+
+/-- stated on the public entry point -/
+theorem issued_csr_decodes_to_request (i : Spec.CsrInputs) (vals : Attribute → Asn1)
+    (sign : Signer) (t : Asn1)
+    (h : serializeRequest i.p i.subject i.attrs sign = .ok t)
+    (hv : ValuesAreDer i.attrs vals)
+    (hc : ∀ e ∈ i.p.customExts, e.oid ∉ Proofs.X509.knownOids)
+    (hsize : (encode (csrInfo i.p i.subject i.attrs)).length < 256 ^ 126) :
+    Spec.c07Clauses i (encode (csrInfo i.p i.subject i.attrs)) = [] := by
+  unfold serializeRequest at h
+  split at h
+  · cases h
+  · cases hinv : csrInvalid i.p i.attrs with
+    | some e => simp [hinv] at h
+    | none =>
+      simp only [hinv] at h
+      split at h
+      · cases h
+      · rename_i hnp
+        exact csr_decodes_to_request i vals hv (by simpa using hnp) hc hsize
+
+/-! non-vacuity of `csr_decodes_to_request`: two caller attributes given out of sorted order
+    (one of them twice), a SAN, a repeated key usage and a custom extension -/
+def exVal (b : Bytes) : Asn1 := .cons 0 17 [.prim 0 12 b]
+def exAttrs : List Attribute :=
+  [⟨[1, 2, 840, 113549, 1, 9, 7], encode (exVal [0x7a, 0x7a])⟩,
+   ⟨[1, 2, 840, 113549, 1, 9, 2], encode (exVal [0x61])⟩,
+   ⟨[1, 2, 840, 113549, 1, 9, 7], encode (exVal [0x7a, 0x7a])⟩]
+def exVals (a : Attribute) : Asn1 :=
+  if a.values = encode (exVal [0x61]) then exVal [0x61] else exVal [0x7a, 0x7a]
+def exCsr : Spec.CsrInputs :=
+  { p := { (default : CertParams) with
+           sans := [.dns [0x61]], keyUsages := [.digitalSignature, .digitalSignature],
+           customExts := [⟨[1, 2, 3, 4], false, [5, 0]⟩],
+           dn := (DistinguishedName.new.push .commonName (.utf8 [0x61])) },
+    subject := ⟨.ecdsaP256, [4, 1, 2]⟩, attrs := exAttrs }
+
+example : ValuesAreDer exAttrs exVals where
+  shape := by intro a _; unfold exVals; split <;> exact ⟨_, rfl⟩
+  tags := by intro a _; unfold exVals; split <;> decide
+  enc := by
+    intro a ha
+    simp only [exAttrs, List.mem_cons, List.not_mem_nil, or_false] at ha
+    rcases ha with rfl | rfl | rfl <;> decide
+example : csrPanics exCsr.p exCsr.attrs = false := by decide +kernel
+example : ∀ e ∈ exCsr.p.customExts, e.oid ∉ Proofs.X509.knownOids := by decide
+example : (encode (csrInfo exCsr.p exCsr.subject exCsr.attrs)).length < 256 ^ 126 := by
+  rw [Proofs.CsrDecode.csrInfo_length]; decide +kernel
 
 /-! non-vacuity -/
 example : csrUnsupported { (default : CertParams) with useAki := true } = true := by decide
